@@ -6,6 +6,7 @@ the code) on every weak ordering of those quantities: 3 for k=2, 13 for k=3,
 75 for k=4.  Each ordering stands for all real inputs that realise it.
 """
 import ast
+import math
 import itertools
 
 from .loader import shape_error
@@ -427,14 +428,15 @@ def ev(n, env, funcs=None):
             if idx not in base:
                 raise KeyError(idx)
             return base[idx]
-        if isinstance(base, (list, tuple)) and isinstance(idx, int) and not isinstance(idx, bool):
-            if not -len(base) <= idx < len(base):
-                raise IndexError('index %d out of range (length %d) in %s' % (idx, len(base), _unparse(n)))
+        if isinstance(base, (list, tuple, str, range)) and (isinstance(idx, int) or hasattr(idx, '__index__')) and not isinstance(idx, slice):
+            k_ = int(idx) if isinstance(idx, (bool, int)) else idx.__index__()          # (True and False index as 1 and 0, numpy integers by __index__)
+            if not -len(base) <= k_ < len(base):
+                raise IndexError('index %d out of range (length %d) in %s' % (k_, len(base), _unparse(n)))
+            return base[k_]
+        if isinstance(base, (list, tuple, str, range)) and isinstance(idx, slice):
             return base[idx]
-        if isinstance(base, (list, tuple, str)) and isinstance(idx, slice):
-            return base[idx]
-        if isinstance(base, str) and isinstance(idx, int) and -len(base) <= idx < len(base):
-            return base[idx]
+        if isinstance(base, (list, tuple, str)) and isinstance(idx, (float, str, type(None))):
+            raise TypeError('%s indices must be integers or slices, not %s' % (type(base).__name__, type(idx).__name__))
         if base is None or isinstance(base, (int, float, bool)):
             raise TypeError("'%s' object is not subscriptable (%s)" % (type(base).__name__, _unparse(n)))
         raise Unsupported('subscript %s' % _unparse(n))
@@ -509,10 +511,11 @@ def ev(n, env, funcs=None):
             v0 = ev(n.args[0], env, funcs)
             cls = n.args[1].elts if isinstance(n.args[1], ast.Tuple) else [n.args[1]]
             names = set()
+            pytypes = []
             for c in cls:
                 nm_ = _unparse(c).split('.')[-1]
-                # a class held in a variable (a dispatch table of (type, handler) pairs): the class it denotes, not the variable's name
-                if isinstance(c, (ast.Name, ast.Attribute, ast.Subscript)) and (not isinstance(c, ast.Name) or c.id in env):
+                # a class held in a variable (a dispatch table of (type, handler) pairs) or computed (type(None)): the class it denotes
+                if isinstance(c, (ast.Name, ast.Attribute, ast.Subscript, ast.Call)) and (not isinstance(c, ast.Name) or c.id in env):
                     try:
                         cv = ev(c, env, funcs)
                     except (Unsupported, KeyError, IndexError, AttributeError):
@@ -520,6 +523,7 @@ def ev(n, env, funcs=None):
                     for one in (cv if isinstance(cv, tuple) else (cv,)):
                         if isinstance(one, type):
                             names.add(one.__name__)
+                            pytypes.append(one)
                             nm_ = None
                         elif one is not None and hasattr(one, '_qual'):
                             names.add(str(one._qual).split('.')[-1])
@@ -530,8 +534,11 @@ def ev(n, env, funcs=None):
                 return True if not v0.isa else bool(v0.isa & names)
             if isinstance(v0, PyStub):
                 return bool(set(getattr(v0, 'isa', ())) & names)
-            builtin = {'bool': bool, 'int': int, 'float': float, 'str': str, 'list': list, 'tuple': tuple, 'dict': dict, 'set': set, 'complex': complex}
+            builtin = {'bool': bool, 'int': int, 'float': float, 'str': str, 'list': list, 'tuple': tuple, 'dict': dict, 'set': set, 'complex': complex,
+                       'NoneType': type(None), 'frozenset': frozenset, 'bytes': bytes, 'range': range, 'object': object}
             if set(getattr(type(v0), 'isa', ())) & names:      # numpy scalar models name their numpy classes
+                return True
+            if any(isinstance(v0, t_) for t_ in pytypes if t_.__module__ == 'builtins'):
                 return True
             return any(isinstance(v0, builtin[nm_]) for nm_ in names if nm_ in builtin)        # subclasses included, as in Python
         args = []
@@ -600,10 +607,15 @@ def ev(n, env, funcs=None):
             if fname == 'map':
                 return [args[0](*t_) for t_ in zip(*its)]
             return [x for x in its[0] if (args[0](x) if args[0] is not None else x)]
-        if isinstance(f, ast.Name) and fname == 'zip' and all(isinstance(a_, (list, tuple)) for a_ in args):
-            return [tuple(t) for t in zip(*args)]
-        if isinstance(f, ast.Name) and fname in ('reversed', 'sorted') and len(args) == 1 and isinstance(args[0], (list, tuple)) and not n.keywords:
-            return list(reversed(args[0])) if fname == 'reversed' else sorted(args[0])
+        if isinstance(f, ast.Name) and fname == 'zip' and not (set(_kw(n, env, funcs)) - {'strict'}):
+            its_ = [_iterable(a_, n) for a_ in args]
+            if _kw(n, env, funcs).get('strict') and len({len(list(i_)) for i_ in its_}) > 1:
+                raise ValueError('zip() arguments have different lengths')
+            return [tuple(t) for t in zip(*its_)]
+        if isinstance(f, ast.Name) and fname == 'reversed' and len(args) == 1 and isinstance(args[0], (list, tuple, range, str)) and not n.keywords:
+            return list(reversed(args[0]))
+        if isinstance(f, ast.Name) and fname == 'sorted' and len(args) == 1 and not n.keywords and not isinstance(args[0], (Obj,)):
+            return sorted(_iterable(args[0], n))
         if isinstance(f, ast.Name) and fname == 'sorted' and len(args) == 1 and n.keywords:
             it_ = args[0]
             if isinstance(it_, dict) or type(it_).__name__ in ('dict_keys', 'dict_values', 'dict_items') or isinstance(it_, (set, tuple, range, str)):
@@ -636,11 +648,18 @@ def ev(n, env, funcs=None):
             if set(kw_) <= {'start'}:
                 return sum(args[0], args[1] if len(args) == 2 else kw_.get('start', 0))
         if fname in ('min', 'max') and args and not n.keywords:
-            if len(args) == 1 and isinstance(args[0], (list, tuple)):
-                args = list(args[0])
+            if len(args) == 1:
+                a0 = args[0]
+                if isinstance(a0, (Obj, PyStub)) and not hasattr(a0, '__iter__'):
+                    raise Unsupported('%s of an abstract object' % fname)
+                if isinstance(a0, (int, float, bool)) or a0 is None:
+                    raise TypeError('%r object is not iterable' % type(a0).__name__)
+                args = list(a0)
             return (min if fname == 'min' else max)(args)
-        if fname in ('abs', 'fabs') and len(args) == 1:
+        if fname == 'abs' and len(args) == 1:
             return abs(args[0])
+        if fname == 'fabs' and len(args) == 1:
+            return math.fabs(args[0]) if isinstance(args[0], (int, float)) and not isinstance(args[0], complex) else abs(args[0])
         if fname == 'len' and len(args) == 1 and isinstance(args[0], Obj) and '__len__' in args[0].methods:
             return args[0].call('__len__')
         if fname == 'len' and len(args) == 1 and (isinstance(args[0], (list, tuple, dict, str, set)) or (isinstance(args[0], PyStub) and hasattr(args[0], '__len__'))):
@@ -856,6 +875,8 @@ def ev(n, env, funcs=None):
             return -v
         if isinstance(n.op, ast.UAdd):
             return +v
+        if isinstance(n.op, ast.Invert):
+            return ~v
     if isinstance(n, ast.BinOp):
         a, b = ev(n.left, env, funcs), ev(n.right, env, funcs)
         t = type(n.op)
@@ -889,25 +910,7 @@ def ev(n, env, funcs=None):
             return a @ b
     if isinstance(n, (ast.ListComp, ast.GeneratorExp)):
         out = []
-
-        def gen(k, e_):
-            if k == len(n.generators):
-                out.append(ev(n.elt, e_, funcs))
-                return
-            g = n.generators[k]
-            it = ev(g.iter, e_, funcs)
-            if isinstance(it, dict) or type(it).__name__ in ('dict_keys', 'dict_values', 'dict_items'):
-                it = list(it)
-            if isinstance(it, PyStub) and hasattr(it, '__iter__'):
-                it = list(it)
-            if not isinstance(it, (list, tuple, range, set, str)):
-                raise Unsupported('comprehension over %s' % _unparse(g.iter))
-            for item in it:
-                e2 = dict(e_)
-                _bind(g.target, item, e2)
-                if all(ev(c_, e2, funcs) for c_ in g.ifs):
-                    gen(k + 1, e2)
-        gen(0, env)
+        _comprehend(n, env, funcs, lambda sc: out.append(ev(n.elt, sc, funcs)))
         return out
     if isinstance(n, ast.JoinedStr):
         out_ = []
@@ -920,40 +923,47 @@ def ev(n, env, funcs=None):
         return ''.join(out_)
     if isinstance(n, ast.Lambda):
         params = [a.arg for a in n.args.args]
-        defaults = [ev(d, env, funcs) for d in n.args.defaults]
-        captured = env
+        defaults = [ev(d, env, funcs) for d in n.args.defaults]           # evaluated once, where the lambda is created
+        kw_defaults = {a.arg: ev(d, env, funcs) for a, d in zip(n.args.kwonlyargs, n.args.kw_defaults) if d is not None}
+        kwonly = [a.arg for a in n.args.kwonlyargs]
+        captured = env                                                    # the enclosing scope itself: free names are looked up at call time
 
         def lam(*args, **kwargs):
             e2 = dict(captured)
             for i_, d_ in enumerate(defaults):
                 e2[params[len(params) - len(defaults) + i_]] = d_
+            e2.update(kw_defaults)
+            if len(args) > len(params) and n.args.vararg is None:
+                raise TypeError('<lambda>() takes %d positional arguments but %d were given' % (len(params), len(args)))
             for p_, a_ in zip(params, args):
                 e2[p_] = a_
-            e2.update(kwargs)
+            if n.args.vararg is not None:
+                e2[n.args.vararg.arg] = tuple(args[len(params):])
+            rest = {}
+            for k_, v_ in kwargs.items():
+                if k_ in params or k_ in kwonly:
+                    e2[k_] = v_
+                elif n.args.kwarg is not None:
+                    rest[k_] = v_
+                else:
+                    raise TypeError('<lambda>() got an unexpected keyword argument %r' % k_)
+            if n.args.kwarg is not None:
+                e2[n.args.kwarg.arg] = rest
+            missing = [p_ for p_ in params[:len(params) - len(defaults)] if p_ not in e2 or (p_ in captured and p_ not in kwargs and params.index(p_) >= len(args))]
+            if missing:
+                raise TypeError('<lambda>() missing required positional arguments: %s' % missing)
             return ev(n.body, e2, funcs)
         return lam
     if isinstance(n, (ast.DictComp, ast.SetComp)):
         res = {} if isinstance(n, ast.DictComp) else set()
-
-        def gen2(k, e_):
-            if k == len(n.generators):
-                if isinstance(n, ast.DictComp):
-                    res[ev(n.key, e_, funcs)] = ev(n.value, e_, funcs)
-                else:
-                    res.add(ev(n.elt, e_, funcs))
-                return
-            g = n.generators[k]
-            it = ev(g.iter, e_, funcs)
-            if isinstance(it, dict) or type(it).__name__ in ('dict_keys', 'dict_values', 'dict_items'):
-                it = list(it)
-            if not isinstance(it, (list, tuple, range, set, str)):
-                raise Unsupported('comprehension over %s' % _unparse(g.iter))
-            for item in it:
-                e2 = dict(e_)
-                _bind(g.target, item, e2)
-                if all(ev(c_, e2, funcs) for c_ in g.ifs):
-                    gen2(k + 1, e2)
-        gen2(0, env)
+        if isinstance(n, ast.DictComp):
+            def emit(sc):
+                k_ = ev(n.key, sc, funcs)
+                res[k_] = ev(n.value, sc, funcs)
+        else:
+            def emit(sc):
+                res.add(ev(n.elt, sc, funcs))
+        _comprehend(n, env, funcs, emit)
         return res
     if isinstance(n, ast.NamedExpr) and isinstance(n.target, ast.Name):
         v_ = ev(n.value, env, funcs)
@@ -973,7 +983,7 @@ def ev(n, env, funcs=None):
         return None
     if isinstance(n, ast.IfExp):
         return ev(n.body, env, funcs) if ev(n.test, env, funcs) else ev(n.orelse, env, funcs)
-    if isinstance(n, ast.Dict) and all(k is not None for k in n.keys):
+    if isinstance(n, ast.Dict):
         out_ = {}
         for k, v in zip(n.keys, n.values):
             if k is None:                     # {**other}
@@ -996,6 +1006,39 @@ def ev(n, env, funcs=None):
     raise Unsupported(_unparse(n) if isinstance(n, ast.AST) else str(n))
 
 
+def _iterable(it, node):
+    """the items of a value a for-clause iterates over"""
+    if isinstance(it, dict) or type(it).__name__ in ('dict_keys', 'dict_values', 'dict_items'):
+        return list(it)
+    if isinstance(it, (list, tuple, range, set, frozenset, str)):
+        return list(it) if not isinstance(it, GenList) else it
+    if isinstance(it, Obj):
+        if '__iter__' in it.methods:
+            return _iterable(it.call('__iter__'), node)
+        if '__getitem__' in it.methods and '__len__' in it.methods:
+            return [it.call('__getitem__', i_) for i_ in range(it.call('__len__'))]
+    if hasattr(it, '__iter__') and not isinstance(it, Obj):
+        return list(it)
+    raise Unsupported('comprehension over %s' % _unparse(node))
+
+
+def _comprehend(n, env, funcs, emit):
+    """run the for / if clauses of a comprehension.  As in Python, the comprehension has ONE scope of its own (a function created
+    inside it sees the last value its loop variables took); the first iterable is evaluated in the enclosing scope."""
+    scope = dict(env)
+
+    def gen(k):
+        if k == len(n.generators):
+            emit(scope)
+            return
+        g = n.generators[k]
+        for item in _iterable(ev(g.iter, env if k == 0 else scope, funcs), g.iter):
+            _bind(g.target, item, scope, funcs)
+            if all(ev(c_, scope, funcs) for c_ in g.ifs):
+                gen(k + 1)
+    gen(0)
+
+
 def free_names(n):
     return sorted({x.id for x in ast.walk(n) if isinstance(x, ast.Name) and isinstance(x.ctx, ast.Load)
                    and x.id not in ('min', 'max', 'abs', 'int', 'float', 'bool', 'math', 'True', 'False')})
@@ -1005,6 +1048,8 @@ def run_block(stmts, env, funcs=None, limit=10000):
     """Tiny concrete interpreter for comparison-only code (if/elif/else, assignments, return).
     Returns ('return', value) | ('fall', None).  `env` is updated in place."""
     for s in stmts:
+        if isinstance(s, ast.Nonlocal):
+            continue
         if isinstance(s, ast.Global):
             if not (funcs and '__globals__' in funcs):
                 raise Unsupported('global statement')
@@ -1067,7 +1112,10 @@ def run_block(stmts, env, funcs=None, limit=10000):
             ev(s.value, env, funcs)
         elif isinstance(s, ast.For):
             it = ev(s.iter, env, funcs)
+            if isinstance(it, Obj) or (not hasattr(it, '__iter__')):
+                it = _iterable(it, s.iter)
             n_it = 0
+            broke = False
             for item in it:
                 n_it += 1
                 if n_it > limit:
@@ -1075,20 +1123,31 @@ def run_block(stmts, env, funcs=None, limit=10000):
                 _bind(s.target, item, env, funcs)
                 r = run_block(s.body, env, funcs, limit)
                 if r[0] == 'break':
+                    broke = True
                     break
                 if r[0] == 'return':
                     return r
+            if s.orelse and not broke:
+                r2 = run_block(s.orelse, env, funcs, limit)
+                if r2[0] in ('return', 'break', 'continue'):
+                    return r2
         elif isinstance(s, ast.While):
             n_it = 0
+            broke = False
             while ev(s.test, env, funcs):
                 n_it += 1
                 if n_it > limit:
                     raise Raised('NonTermination', 'a loop ran for more than %d iterations on this small input' % limit)
                 r = run_block(s.body, env, funcs, limit)
                 if r[0] == 'break':
+                    broke = True
                     break
                 if r[0] == 'return':
                     return r
+            if s.orelse and not broke:
+                r2 = run_block(s.orelse, env, funcs, limit)
+                if r2[0] in ('return', 'break', 'continue'):
+                    return r2
         elif isinstance(s, ast.Delete):
             for t in s.targets:
                 if isinstance(t, ast.Subscript):
@@ -1179,19 +1238,48 @@ def run_block(stmts, env, funcs=None, limit=10000):
 
 
 def _closure(fdef, env, funcs):
-    """a nested function definition: interpreted in a copy of the enclosing environment taken at call time"""
+    """a nested function definition: interpreted in a copy of the enclosing environment taken at call time; defaults are evaluated
+    where the function is defined; names declared nonlocal are written back to the enclosing environment"""
     params = [a.arg for a in fdef.args.args]
     defaults = [ev(d, env, funcs) for d in fdef.args.defaults]
+    kw_defaults = {a.arg: ev(d, env, funcs) for a, d in zip(fdef.args.kwonlyargs, fdef.args.kw_defaults) if d is not None}
+    kwonly = [a.arg for a in fdef.args.kwonlyargs]
+    nonlocals = [nm for st in ast.walk(fdef) if isinstance(st, ast.Nonlocal) for nm in st.names]
 
     def call(*args, **kwargs):
         e2 = dict(env)
+        own = set()
         for i_, d_ in enumerate(defaults):
             e2[params[len(params) - len(defaults) + i_]] = d_
+            own.add(params[len(params) - len(defaults) + i_])
+        e2.update(kw_defaults)
+        own |= set(kw_defaults)
+        if len(args) > len(params) and fdef.args.vararg is None:
+            raise TypeError('%s() takes %d positional arguments but %d were given' % (fdef.name, len(params), len(args)))
         for p_, a_ in zip(params, args):
             e2[p_] = a_
-        e2.update(kwargs)
+            own.add(p_)
+        if fdef.args.vararg is not None:
+            e2[fdef.args.vararg.arg] = tuple(args[len(params):])
+        rest = {}
+        for k_, v_ in kwargs.items():
+            if k_ in params or k_ in kwonly:
+                e2[k_] = v_
+                own.add(k_)
+            elif fdef.args.kwarg is not None:
+                rest[k_] = v_
+            else:
+                raise TypeError('%s() got an unexpected keyword argument %r' % (fdef.name, k_))
+        if fdef.args.kwarg is not None:
+            e2[fdef.args.kwarg.arg] = rest
+        missing = [p_ for p_ in params + kwonly if p_ not in own]
+        if missing:
+            raise TypeError('%s() missing required arguments: %s' % (fdef.name, missing))
         body = fdef.body
         kind, val = run_block(body, e2, funcs)
+        for nm in nonlocals:
+            if nm in e2:
+                env[nm] = e2[nm]
         return _result(fdef, e2, kind, val)
     call.__name__ = fdef.name
     return call
@@ -1208,7 +1296,15 @@ def _bind(t, v, env, funcs=None):
         base = ev(t.value, env, funcs)
         if isinstance(base, list):
             k = ev(t.slice, env, funcs)
-            if not isinstance(k, int) or not -len(base) <= k < len(base):
+            if isinstance(k, slice):
+                if not isinstance(v, (list, tuple, range, str, set, frozenset, dict)) and not hasattr(v, '__iter__'):
+                    raise TypeError('can only assign an iterable')
+                base[k] = list(v)
+                return
+            if isinstance(k, bool) or not isinstance(k, int) and not hasattr(k, '__index__'):
+                raise TypeError('list indices must be integers or slices, not %s' % type(k).__name__)
+            k = int(k)
+            if not -len(base) <= k < len(base):
                 raise IndexError('store index %r out of range in %s' % (k, ast.unparse(t)))
             base[k] = v
             return
@@ -1228,8 +1324,24 @@ def _bind(t, v, env, funcs=None):
             raise Unsupported('store into %s' % ast.unparse(t))
         base[ev(t.slice, env, funcs)] = v
     elif isinstance(t, (ast.Tuple, ast.List)):
-        if not isinstance(v, (list, tuple)) or len(v) != len(t.elts):
-            raise Unsupported('unpacking %s' % ast.unparse(t))
+        if isinstance(v, (str, range, set, frozenset, dict)) or (hasattr(v, '__iter__') and not isinstance(v, (list, tuple))):
+            v = list(v)
+        if not isinstance(v, (list, tuple)):
+            raise TypeError('cannot unpack non-iterable %s object' % type(v).__name__)
+        stars = [i_ for i_, e_ in enumerate(t.elts) if isinstance(e_, ast.Starred)]
+        if stars:
+            k_ = stars[0]
+            after = len(t.elts) - k_ - 1
+            if len(v) < len(t.elts) - 1:
+                raise ValueError('not enough values to unpack (expected at least %d, got %d)' % (len(t.elts) - 1, len(v)))
+            for a, b in zip(t.elts[:k_], v[:k_]):
+                _bind(a, b, env, funcs)
+            _bind(t.elts[k_].value, list(v[k_:len(v) - after]), env, funcs)
+            for a, b in zip(t.elts[k_ + 1:], v[len(v) - after:] if after else []):
+                _bind(a, b, env, funcs)
+            return
+        if len(v) != len(t.elts):
+            raise ValueError('%s values to unpack (expected %d, got %d)' % ('too many' if len(v) > len(t.elts) else 'not enough', len(t.elts), len(v)))
         for a, b in zip(t.elts, v):
             _bind(a, b, env, funcs)
     elif isinstance(t, ast.Attribute):
